@@ -137,7 +137,8 @@ Section Framing.
   Definition is_hello (t : ptype) : bool := ptype_eqb t CLIENT_HELLO || ptype_eqb t SERVER_HELLO.
 
   (* Packet.from_bytes(hdr, key, datagram) — after the fix: a key holder only accepts sealed
-     datagrams; without a key only a single-message hello in clear *)
+     datagrams; without a key the CRC form is decoded (the connection itself refuses
+     everything but a single-message hello while it has no key, see Conn.recv) *)
   Definition from_bytes (key : option Z) (h : header) (d : list byte) : res (list wmsg) :=
     let length_ := 20 + h_len h in
     if length_ >? len d then Err EPacket else
@@ -149,7 +150,6 @@ Section Framing.
           | None => Err EOther          (* cryptography.exceptions.InvalidTag *)
           end
       | None =>
-          if negb (h_count h =? 1) || negb (is_hello (h_type h)) then Err EPacket else
           let data := firstn (Z.to_nat length_) d in
           let c := sub d (Z.to_nat length_) 4 in
           if (length c <? 4)%nat then Err EStruct
